@@ -3,24 +3,58 @@ prop(
     quick=[("native", 4), ("miri", 1)],
     thorough=[("native", 16), ("asan", 4), ("miri", 2)],
     level="exploration",
-    min_evals={"quick": 1_000_000, "thorough": 1_000_000_000},
+    min_evals={"quick": 5_000_000, "thorough": 10_000_000_000},
     rule=(
         "pairs (a, a+d): thorough enumerates every d in 0..2^32 from 7 bases (exhaustive for those bases), "
-        "quick every d within 2^16 of 0, 2^31 and 2^32 from 8 bases plus a prime stride over the whole range; "
-        "add(n) over a boundary-dense n set x bases plus random (a, n); wire conversion over boundary and random values. "
-        "A case signature is (operation, base, difference region 0 / <2^31 / =2^31 / >2^31) or (add, wrap?, n class); "
-        "distinct_nontrivial counts those classes, evaluations counts single oracle comparisons."
+        "quick every d within 2^16 of 0, 2^31 and 2^32 from 8 bases plus a prime stride over the whole range; every pair is judged by the "
+        "RFC 1982 table for partial_cmp in both directions AND for the whole operator set of the type (==, !=, <, <=, >, >= in both operand "
+        "orders, Serial == u32 and Serial != u32 in both roles, PartialEq::ne / PartialOrd::ge by name: 18 results per pair, counter "
+        "operator_results_compared; operator_rows_at_distance_2^31 says how many rows sat exactly on the undefined point); the six distinguished differences 0, +-1, 2^31, "
+        "2^31 +- 1 are in addition taken from 400 k further bases (40 M in thorough; random, around 0, around 2^31, multiples of 2^16). A boundary subset "
+        "(|d| <= 48 around 0 and 2^31 from the 8 bases and from whatever Default, State::new and Arbitrary hand out, plus 2048 stride pairs) "
+        "also goes through the consumers of the traits: Option, slice, tuple and reference comparisons, Display / Debug (equal serials print "
+        "alike, different ones do not) and hash under two hashers (counter consumer_rows). "
+        "add(n) over a boundary-dense n set x bases plus random (a, n); State::inc five times in a row across both wraps. "
+        "Conversions: every way to make a Serial from an integer (From, Into, tuple literal, clone, from_be, State::from_parts / "
+        "new_with_serial, add, FromStr of the decimal text and of the Display text) holds that integer, compares equal to the others under "
+        "Serial and u32 equality and hashes alike (conversion_values). Wire: to_be/from_be over boundary and random values; every PDU with a "
+        "serial (bytes 8..12 big-endian, accessor gives it back); the same through partial I/O. "
+        "Transport in pieces (c16_wire.rs): (1) the real Server::run over the scripted socket of C08 with a constant source that has a diff "
+        "from exactly one state (session, X) and is itself at Y: the client stream 'Serial Query X, Serial Query Y' (laid out by the "
+        "independent encoder) is cut at each of the 23 positions with no notification, a notification after settling in the gap, in the same "
+        "tick as the piece or as the rest, two cuts in and around each serial field with notifications in the gaps, octet by octet, with the "
+        "output blocked and on a socket that delivers on flush, for 20 boundary / all-octets-different serials (120 in thorough) x versions "
+        "0-2; one evaluation = one schedule run; the output minus Serial Notify PDUs (each must carry Y) must be Cache Response, the diff "
+        "record, End of Data(Y), Cache Response, End of Data(Y) - the source only answers so when it was asked for exactly the serials sent "
+        "(server_notify_with_k_of_4_serial_octets_in counts where notifications met the reader). (2) Client::step twice over a reader that "
+        "dribbles a valid transcript (9 delivery patterns incl. one octet per read with Pending in between, writes accepted 3 octets at a "
+        "time; reset or serial start, versions 0-2, Client::new and with_initial_version): Client::state() is exactly the (session, serial) "
+        "of each End of Data, the first Serial Query carries the state given, the next one the serial of the previous End of Data. "
+        "(3) every public reader of a PDU holding a serial (Payload::read, EndOfData::read_payload, EndOfDataV0/V1 read / try_read, "
+        "SerialNotify try_read / read_payload, Header + SerialQueryPayload) fed in the same patterns. "
+        "A case signature is (operation, base, difference region 0 / <2^31 / =2^31 / >2^31), (add, wrap?, n class), or for the transport part "
+        "(server, version, schedule class, where the notification met the reader, serial class) / (client, version, start, constructor, "
+        "payload count, delivery, serial class); distinct_nontrivial counts those classes, evaluations counts table rows, single oracle "
+        "comparisons and schedule / step runs."
     ),
     assumptions=[
         "Serial::add is only specified for n <= 2^31-1; larger n (documented panic) is not exercised",
         "comparison table taken from the property statement / RFC 1982, evaluated on u32 arithmetic written in the harness",
+        "at distance 2^31 ('undefined') every order comparison (<, <=, >, >=) is false and != is true, as Rust's PartialOrd/PartialEq contracts require of a type whose partial_cmp is None there",
+        "Display / Debug / FromStr are not wire formats: only 'equal serials print alike, different ones differently' and 'text that parses gives the value it spells' are demanded; whether Display is decimal and parses back is recorded (display_is_decimal_u32), not judged",
+        "Default / State::new / Arbitrary may hand out any value; it is used as a further base, its being 0 is recorded only",
+        "server: the constant source of c08_io answers a Serial Query with its one-record diff iff diff() is called with exactly (session, X); the verdict is read from the server's output, runs that do not settle are not judged (C08 watches liveness)",
+        "client: a step that does not complete over a valid transcript is recorded (client_steps_not_completed), not judged - only the state a completed step leaves behind is",
     ],
     level_text=(
         "Runtime oracle (RFC 1982 table written from the statement) over every difference 0..2^32 from seven bases in the thorough tier "
-        "(exhaustive for those bases) and boundary windows plus a stride sample in the quick tier; Miri and ASan repeat a boundary subset. "
+        "(exhaustive for those bases) and boundary windows plus a stride sample in the quick tier, applied to partial_cmp and to every "
+        "comparison operator and trait method the type offers; Miri and ASan repeat a boundary subset. For the wire clause the real server "
+        "connection and the real client are run over scripted transports that slice the four octets at every position and fire "
+        "notifications in the gaps. "
         "Exhaustive enumeration of the one-dimensional difference space is the natural level for a property that depends on the difference only."
     ),
-    level_note="Trusts the harness' own 20-line table and Rust integer arithmetic; bases other than the seven enumerated are sampled.",
-    technique="runtime oracle over exhaustive difference enumeration + Miri/ASan",
+    level_note="Trusts the harness' own 20-line table and Rust integer arithmetic; bases other than the seven enumerated are sampled; the transport schedules are enumerated for single and double cuts, not for every interleaving.",
+    technique="runtime oracle over exhaustive difference enumeration for every comparison entry point + real server / client over scripted fragmenting transports + Miri/ASan",
     design_ref="DESIGN.md §4 C16",
 )
